@@ -433,6 +433,7 @@ pub struct World<'a> {
     healed: bool,
     busy_ops_left: usize,
     pending_deliveries: usize,
+    cur_rank: u32,
 }
 
 fn link_name(a: usize, b: usize) -> String {
@@ -483,6 +484,7 @@ impl<'a> World<'a> {
             ended_early: false,
             healed: false,
             pending_deliveries: 0,
+            cur_rank: 0,
             busy_ops_left: plan.timeline.iter().filter(|t| !matches!(t.op, Op::Step { .. } | Op::Flush { .. } | Op::StepEvery { .. })).count(),
         })
     }
@@ -775,6 +777,11 @@ impl<'a> World<'a> {
         for mut op in ops {
             if op.t_us * 1000 < self.now_ns {
                 op.t_us = (self.now_ns + 999) / 1000;
+            }
+            // an operation scheduled for the current instant runs after the current one, in
+            // search mode and in replay alike (ties in (time, rank) keep creation order)
+            if op.t_us * 1000 == self.now_ns && op.rank < self.cur_rank {
+                op.rank = self.cur_rank;
             }
             let idx = self.extra_ops.len();
             if !matches!(op.op, Op::Step { .. } | Op::Flush { .. } | Op::StepEvery { .. }) {
@@ -1304,6 +1311,7 @@ impl<'a> World<'a> {
                 break;
             }
             self.now_ns = item.t_ns;
+            self.cur_rank = item.rank;
             match item.kind {
                 ItemKind::Timeline(i) => {
                     let op = self.plan.timeline[i].op.clone();
